@@ -64,7 +64,9 @@ def gen_project(r):
         elif kind == "entry-imports-entry" and names:
             tgt = r.choice(names)
             rel_t = posixpath.relpath(tgt, d or ".")
-            text = "let o = import \"%s\";\nout json {from = \"b%d\", n = %d};\n" % (rel_t, i, i)
+            # uses what the other command-line file exports: a function, a module and plain data
+            text = ("let o = import \"%s\";\nout json {from = \"b%d\", n = %d, h = o.helper(1), m = o.hmod{a = 2}, d = o.datum.n, "
+                    "hs = map(o.helper, [1, 2])};\n" % (rel_t, i, i))
         elif kind == "lib-no-out":
             text = "let l = import \"%slib/shared.ucg\";\nlet val = l.val * %d;\n" % (up, i + 1)
         elif kind == "syntax-error":
@@ -80,6 +82,9 @@ def gen_project(r):
         else:
             kind = "entry"
             text = "let v = %d;\nout json {v = v};\n" % i
+        if kind != "syntax-error":
+            # every command-line file also exports something other command-line files may use
+            text = ("let helper = func (x) => x + %d;\nlet hmod = module {a = 1} => (r) { let r = mod.a + %d; };\nlet datum = {n = %d};\n" % (i, i, i)) + text
         files[rel] = text
         roles[rel] = kind
         names.append(rel)
